@@ -384,11 +384,28 @@ def pmap(fn: Callable, items: list, procs: int = 16) -> list:
     import concurrent.futures as cf
     from concurrent.futures.process import BrokenProcessPool
 
+    ex = cf.ProcessPoolExecutor(min(procs, len(items)), mp_context=mp.get_context("fork"))
     try:
-        with cf.ProcessPoolExecutor(min(procs, len(items)), mp_context=mp.get_context("fork")) as ex:
-            return list(ex.map(fn, items, chunksize=1))
+        return list(ex.map(fn, items, chunksize=1))
     except BrokenProcessPool as e:
         raise Infra(f"a worker process died abruptly (killed? out of memory?): {e}") from e
+    finally:
+        # A worker may be unable to exit by itself: a run against a deadlocking implementation leaves blocked
+        # non-daemon threads behind, which interpreter shutdown would join for ever. Kill the workers.
+        workers = list(getattr(ex, "_processes", {}).values())
+        ex.shutdown(wait=False, cancel_futures=True)
+        for w in workers:
+            try:
+                w.terminate()
+            except Exception:
+                pass
+        for w in workers:
+            try:
+                w.join(2)
+                if w.is_alive():
+                    w.kill()
+            except Exception:
+                pass
 
 
 def load_known() -> dict:
